@@ -415,10 +415,28 @@ def check_aux(run, bitpacked):
             continue
         if not (np.array_equal(p, refp) and np.array_equal(v, refv)):
             run.violation('rvint-container-dependence', dict(container=label))
+    # box / ppd omitted when no position is requested: every other field as with them
+    for sel in (dict(pid=True), dict(tagged=True, density=True), dict(lagr_idx=True, pid=True, tagged=True, density=True)):
+        run.ev()
+        run.nt(('aux_no_box_ppd', tuple(sorted(sel))))
+        try:
+            out = bitpacked.unpack_pids(packed, float_dtype=np.float32, **sel)
+        except Exception as e:
+            run.violation('aux-defaults-rejected', dict(requested=sorted(sel), error=f'{type(e).__name__}: {e}'[:200]))
+            continue
+        if set(out) != set(sel) or any(not np.array_equal(out[n], base[n]) for n in out):
+            run.violation('aux-subset-dependence', dict(requested=sorted(sel), problem='differs when box/ppd are left out'))
+    for bad_kw, label in ((dict(box=500.0), 'ppd missing'), (dict(box=500.0, ppd=64.5), 'ppd not integral'), (dict(ppd=64), 'box missing')):
+        run.ev()
+        try:
+            bitpacked.unpack_pids(packed[:3], lagr_pos=True, **bad_kw)
+            run.count('aux_invalid_lattice_accepted')  # informational: the statement does not say such a call must be refused
+        except ValueError:
+            run.count('aux_invalid_lattice_rejected')
     # box/ppd errors and defaults
     try:
         bitpacked.unpack_pids(packed[:3], lagr_pos=True)
-        run.violation('aux-missing-box-accepted', {})
+        run.count('aux_missing_box_accepted')  # informational (see above)
     except ValueError:
         run.count('aux_missing_box_rejected')
     out = bitpacked.unpack_pids(np.zeros(0, dtype=np.uint64), box=1.0, ppd=4, **ALLF)
